@@ -36,6 +36,7 @@ var exprForms = []string{
 	`arr.1.0`, `h.k.0`, `arr.0|up`, `arr.0 ~ a`, `arr.0[0]`, `arr.0.k`, `nest.0.k`, `nest.1.k|up`,
 	`a and -b`, `z or +a`, `not -z`, `a and not z`, `a in [-1, +3]`, `a is odd or -b`, `a - -b`, `a ~ -b`, `-a ** 2`, `(a) - (b)`, `f(-a, +b)`, `a == -b ? -a : +b`,
 	// strings that contain delimiters (no interpolation): both quote styles hold them alike
+	`{'k': "v#{ (a + 1) }"}.k`, `{'k': {'j': "v#{ f((a)) }"}}.k.j`, `[{'k': "#{ [a, (b)]|join }"}][0].k`, `{'k': "x#{ {'j': (a)}.j }y"}.k`,
 	`'a }} b'`, `'width: 100%}' ~ 'x'`, `f('{{ a }}', '{% if %}')`, `s == '}}' ? '{#' : '#}'`, `'}' ~ '}' ~ '%' ~ '}'`, `['{{', '}}']|join`,
 }
 
